@@ -13,7 +13,7 @@ SPEC = {
          "eval": "fun c => let '(s, w, d, op, v, cf, im) := c in check_c30 s w d op v cf 300 im", "per_shard": 30},
     ],
     "classes": {1: "static-type-name-not-registered"},
-    "n_quick": 800, "n_thorough": 12000,
+    "n_quick": 400, "n_thorough": 8000,
     "level": "proof",
     "what_violation": "response with pass-through extensions differs from the response without, or hooks not nested / not in lifecycle order",
     "rule": ("derive-built schema family executed with stacks of 0..3 recording pass-through extensions (strict and fast validation, "
